@@ -63,6 +63,8 @@ Definition den_rrepl (r : srrepl) : rrepl :=
 
 Definition is_blank (c : N) : bool := N.eqb c 32 || N.eqb c 10 || N.eqb c 9.
 
+Definition s_dots : str := lit "...".
+
 Definition den_callable (c : scallable) (s : str) (pos : nat) : cres :=
   let u := skipn pos s in
   match c with
@@ -70,7 +72,7 @@ Definition den_callable (c : scallable) (s : str) (pos : nat) : cres :=
   | SCDoc =>
       match rx_match (RxClassMin 65 90 2) u with
       | Some (n, _) => CMatch n (braces (firstn n u))
-      | None => if startswith u (lit "...") then CMatch 3 (lit "\ldots") else CNone
+      | None => if startswith u s_dots then CMatch 3 (lit "\ldots") else CNone
       end
   | SCQuote =>
       if N.eqb (nth pos s 0%N) 34 then
